@@ -37,6 +37,8 @@ void yk_assert_at(bool c, std::uint32_t line) {
         std::_Exit(1);
     }
 }
+void yk_on_sleep(unsigned n) __attribute__((weak));
+static unsigned g_sleeps = 0;
 static const void* g_watch = nullptr;
 static std::uint32_t g_wst = 0, g_wld = 0;
 void yk_watch(const void* p) { g_watch = p; g_wst = 0; g_wld = 0; }
@@ -46,6 +48,10 @@ void yakushima_verif_hook(int kind, const void* addr) {
     if (addr != nullptr && addr == g_watch) {
         if (kind == 1) ++g_wst;
         else if (kind == 0) ++g_wld;
+    }
+    if (kind == 4) {
+        ++g_sleeps;
+        if (yk_on_sleep != nullptr) yk_on_sleep(g_sleeps);
     }
 }
 struct ev_rec { std::uint32_t kind; const void* ptr; std::uint64_t tag; };
@@ -62,7 +68,15 @@ std::uint64_t yk_event_tag(std::uint32_t i) { return i < 64 ? g_ev[i].tag : 0; }
 void yk_event_reset(void) { g_nev = 0; }
 std::int64_t yk_live_allocs(void);
 int yk_is_live(const void* p);
-void yk_reach_at(std::uint32_t line) { std::printf("REACH reach:%u\n", line); }
+void yk_stop(void) {
+    std::printf("DONE (yk_stop) inputs_used=%zu\n", g_pos);
+    std::fflush(stdout);
+    std::_Exit(0);
+}
+void yk_reach_at(std::uint32_t line) {
+    if (line >= 100000) std::printf("REACH reach:%u@%u\n", line % 100000, line / 100000);
+    else std::printf("REACH reach:%u\n", line);
+}
 }
 
 // ---- allocation accounting: every operator new/delete variant of the program under test goes through here
@@ -97,6 +111,30 @@ void operator delete(void* p, std::size_t, std::align_val_t) noexcept { yk_free(
 void operator delete[](void* p, std::size_t, std::align_val_t) noexcept { yk_free(p); }
 extern "C" std::int64_t yk_live_allocs(void) { return g_live; }
 extern "C" int yk_is_live(const void*) { return 1; } // not observable natively; ASan builds catch use-after-free instead
+
+// ---- thread model of the symbolic runs, natively: std::thread start records the thread, join() runs its body to
+// completion on the joining thread (DESIGN 2.3).  The definitions below interpose libstdc++'s exported members, so the
+// replay of a kind-N counterexample is single-threaded and deterministic, exactly as CBMC explored it.
+#include <thread>
+namespace {
+std::thread::_State* g_states[16];
+unsigned g_nthreads = 0;
+} // namespace
+namespace std {
+void thread::_M_start_thread(_State_ptr state, void (*)()) {
+    g_states[g_nthreads % 16] = state.release();
+    ++g_nthreads;
+    _M_id = id(static_cast<native_handle_type>(g_nthreads));
+}
+void thread::join() {
+    auto h = static_cast<unsigned long>(native_handle());
+    if (h == 0 || h > g_nthreads) std::abort();
+    _State* st = g_states[(h - 1) % 16];
+    st->_M_run();
+    delete st;
+    _M_id = id();
+}
+} // namespace std
 
 int main(int argc, char** argv) {
     if (argc < 3) {
